@@ -258,6 +258,14 @@ def _spec_str(specs):
     return ','.join(op + v for op, v in specs)
 
 
+def in_project_consumer(case):
+    # (with auto_fill the package is completed later and pkg_config() returns
+    # nothing; a static library with private dependencies needs `--static`,
+    # which is the consumer's choice, not the file's)
+    return not case['auto_fill'] and not (
+        case['private_static_dep'] and case['mode'] == 'static')
+
+
 def render_pc(case, src, depdir):
     w = sandbox.write_file
     L = ["project('c17', version={!r})".format(case['version'])]
@@ -298,7 +306,19 @@ def render_pc(case, src, depdir):
         kw.append('requires={!r}'.format(req))
     if reqp:
         kw.append('requires_private={!r}'.format(reqp))
-    L.append("pkg_config('c17pkg', {})".format(', '.join(kw)))
+    L.append("pkg = pkg_config('c17pkg', {})".format(', '.join(kw)))
+    # the package consumed inside the project: bfg9000 reads the flags back
+    # from the file it has just written
+    if in_project_consumer(case):
+        w(os.path.join(src, 'incons.c'), '#include "api0.h"\nint main(void)'
+          '{return foo() == 42 ? 0 : 1;}\n')
+        L.append("executable('incons', ['incons.c'], packages=[pkg])")
+    if case['auto_fill']:
+        # explicitly empty fields stay empty
+        L.append("pkg_config('c17nolibs', version='1.0', auto_fill=True, "
+                 "libs=[])")
+        L.append("pkg_config('c17noincs', version='1.0', auto_fill=True, "
+                 "includes=[])")
     if req:
         # a second package declared later names the same public requirements:
         # what the first call did with them must not leak into this one
@@ -420,7 +440,8 @@ def prop_pcfile(rec):
                     return
                 bad = [n for n, sp in allspecs.items()
                        if sp and not member(sp, case['deps'][n]['version'])]
-                if bad and 'unable to find package' in r.err:
+                if bad and ('unable to find package' in r.err or
+                            "'pkg-config', 'c17pkg'" in r.err):
                     # bfg9000 loads its own package through pkg-config, which
                     # rightly refuses: the installed dependency is outside
                     # the required range
@@ -471,6 +492,42 @@ def prop_pcfile(rec):
             if i.rc != 0:
                 raise Violation('pc/install-failed',
                                 (i.err + i.out).strip()[-600:], case)
+            bad_dep = [n for n, sp in allspecs.items() if sp and not member(
+                sp, case['deps'][n]['version'])]
+            if not bad_dep and in_project_consumer(case):
+                bi = sandbox.run_make(bld, env, ['incons'])
+                if bi.rc != 0:
+                    raise Violation('pc/in-project-consumer', 'an executable '
+                                    'declared with packages=[<the generated '
+                                    'package>] does not build: {}'.format(
+                                        (bi.err + bi.out).strip()[-600:]),
+                                    case)
+                run = subprocess.run([os.path.join(bld, 'incons')], env={},
+                                     stdout=subprocess.PIPE,
+                                     stderr=subprocess.PIPE)
+                if run.returncode != 0:
+                    raise Violation('pc/in-project-consumer', 'the executable '
+                                    'built with packages=[<the generated '
+                                    'package>] exits {}: {}'.format(
+                                        run.returncode,
+                                        run.stderr.decode()[-300:]), case)
+            if case['auto_fill'] and not bad_dep:
+                pcp = [os.path.join(bld, 'pkgconfig'), depdir]
+                rc, out, err = pkgconf(['--libs', 'c17nolibs'], pcp)
+                if rc != 0 or '-lfoo' in pc_split(out.strip() or '') or \
+                        any(f.startswith('-l') for f in
+                            pc_split(out.strip()) or []):
+                    raise Violation('pc/explicit-empty/libs', "pkg_config("
+                                    "auto_fill=True, libs=[]) yields --libs "
+                                    "{!r} (exit {})".format(out.strip(), rc),
+                                    case)
+                rc, out, err = pkgconf(['--cflags', 'c17noincs'], pcp)
+                if rc != 0 or any(f.startswith('-I') for f in
+                                  pc_split(out.strip()) or []):
+                    raise Violation('pc/explicit-empty/includes',
+                                    "pkg_config(auto_fill=True, includes=[]) "
+                                    "yields --cflags {!r} (exit {})".format(
+                                        out.strip(), rc), case)
             variants = [
                 ('uninstalled', [os.path.join(bld, 'pkgconfig'), depdir],
                  False, [os.path.join(src, d) for d in case['incdirs']],
